@@ -323,7 +323,12 @@ impl C03 {
         // its fixed part (16) cannot be viewed as a module -> panic there.
         let mut it = bi.module_tags();
         let mut n = 0;
+        // a clone taken after the first module continues with the same modules
+        let mut cloned: Option<(multiboot2::ModuleIter, usize)> = None;
         for t in exp.iter().filter(|t| t.word0 == 3) {
+            if n == 1 && cloned.is_none() {
+                cloned = Some((it.clone(), 1));
+            }
             let r = catch(|| it.next());
             if t.size < 16 {
                 match r {
@@ -366,6 +371,17 @@ impl C03 {
             ),
         }
         ctx.count_n("modules:yielded", n);
+        if let (Some((mut c, from)), WalkEnd::Complete) = (cloned, end) {
+            let want: Vec<usize> = exp.iter().filter(|t| t.word0 == 3 && t.size >= 16).skip(from).map(|t| t.off).collect();
+            let all_ok = exp.iter().filter(|t| t.word0 == 3).all(|t| t.size >= 16);
+            if all_ok {
+                let got = catch(|| c.by_ref().map(|m| m as *const _ as *const u8 as usize - reg.addr()).collect::<Vec<_>>());
+                if got != Out::Val(want.clone()) {
+                    ctx.violation("modules:clone-diverges", J::s(format!("clone yields {:?}, expected offsets {:?}", got, want)));
+                }
+                ctx.count("modules:clone-checked");
+            }
+        }
     }
 
     /// M6: random interleavings of next()/clone()/fresh over <= 4 iterators,
